@@ -1,4 +1,4 @@
-HOOK_COMMITS = ["3c28e2b"]
+HOOK_COMMITS = ["3c28e2b", "2f5b495", "25967af"]
 
 _ALL = ["C%02d" % i for i in range(1, 21)]
 
@@ -8,6 +8,26 @@ CHECKS = [
   "design_ref": "DESIGN.md sec. 6 C18",
   "note": "Trusted: Coq kernel, extraction (ExtrOcamlBasic), the Go harness and gorilla/websocket as transport; bufio in front of wsConn is covered by quantifying over all read-size sequences. Correspondence is differential testing bounded by the generator.",
   "technique": "Coq proof (induction over read sequences, stream-conservation invariant) + extracted-model differential check against the real wsConn"},
+ {"property_id": "C02",
+  "text": "Coq theorems: (a) packets.TopicMatch, transcribed as a fuelled two-cursor loop, equals MQTT 4.7 level matching on every well-formed (name, filter) pair and always terminates; (b) [when Proofs/SubTrieP.v is in the build] the trie store (three tries, indexes, counters) refines a flat map (client, share, filter) -> subscription for all histories: lookups by topic / exact filter / client return exactly the matching stored entries, each once, counters equal the number of live entries. Tied to the code by running mem.NewStore() and packets.TopicMatch against the extracted model on generated histories (all pairs of strings over a 6-letter alphabet up to length 3 for TopicMatch) and by evaluating the extracted spec-level oracle on the implementation's answers.",
+  "design_ref": "DESIGN.md sec. 6 C02",
+  "note": "Trusted: Coq kernel, extraction, Go harness, generator coverage. Node pointers in the indexes are modelled as paths. Redis wrapper not yet driven.",
+  "technique": "Coq proof (refinement of the trie store to a flat map; loop-invariant proof of TopicMatch) + extracted-model differential check"},
+ {"property_id": "C11",
+  "text": "Same model and refinement as C02 for the shared-subscription trie: lookups on shared subscriptions return exactly the members of each (group, filter); UnsubscribeAll/Unsubscribe change only the leaver's own entries (frame property on the spec, refinement on the store). Differential check of mem.NewStore() against the extracted model on histories with several groups and one client in several groups. The choice of one member per group (flush/pick) is covered with the wire-level broker model when present.",
+  "design_ref": "DESIGN.md sec. 6 C11",
+  "note": "Partial: delivery to exactly one member per group (server.flush) is not yet modelled; store level only. Dollar topics vs wildcard shared filters: tolerated either way (not claimed).",
+  "technique": "Coq proof (refinement of the shared trie to a flat map, frame lemma) + extracted-model differential check"},
+ {"property_id": "C07",
+  "text": "Coq theorems over an executable model of the retained-message trie: after any history the store equals the flat map topic -> last retained non-empty message (empty payload forgets), and GetMatchedMessages(filter) returns exactly the kept messages whose topic matches under MQTT 4.7 incl. the $ rule, each once. Tied to the code by running trie.NewStore() against the extracted model on generated histories and evaluating the spec-level oracle on the implementation's answers.",
+  "design_ref": "DESIGN.md sec. 6 C07",
+  "note": "Partial: the subscribe-time replay rules (Retain Handling, RETAIN flag, QoS min) live in server/client.go and are covered only once the wire-level broker model exists.",
+  "technique": "Coq proof (refinement of the retained trie to a flat map, nested induction) + extracted-model differential check"},
+ {"property_id": "C10",
+  "text": "Executable Coq model of mem.Queue (list + cursor, drop ladder, notifier events) and an abstract queue written from the statement (queued list + in-flight table; checker for the ladder, FIFO, id assignment, expiry/size filtering, replay after Init, counters = contents, bound). Every check runs the real mem.Queue with a recording notifier and the extracted model on the same generated operation histories, compares outputs step by step, and runs the abstract checker on the implementation's outputs. Theorems (Proofs/QueueP.v when in the build): length bound, no panic, and refinement of the model to the abstract queue for all histories.",
+  "design_ref": "DESIGN.md sec. 6 C10",
+  "note": "Redis queue backend not covered yet. Blocking Read is observed through a probe hook, not by blocking. Time passes through VerifShift.",
+  "technique": "Coq proof (simulation between list+cursor model and abstract queue) + extracted-model differential check + abstract-spec oracle on implementation traces"},
 ]
 
 _claimed = {c["property_id"] for c in CHECKS}
